@@ -26,9 +26,29 @@ for i in range(1, 21):
         pid, e['tier'], c['cells_total'], format(c['traces_validated_against_impl'], ','), format(c['states'], ','),
         'yes' if c['exhaustive'] else 'no (%d capped)' % c['cells_capped'], e['wall_s']))
     rows.append('| | ' + '; '.join(runs) + ' | | | | | |')
+# thorough tier: the last end-to-end run of every thorough command, kept in thorough_runs/
+trows = []
+for i in range(1, 21):
+    pid = 'C%02d' % i
+    fn = os.path.join(V, 'thorough_runs', pid + '.json')
+    if not os.path.exists(fn):
+        continue
+    e = json.load(open(fn))
+    c = e['coverage']
+    fmt = lambda x: ('∞' if x >= 99 else str(x))
+    bs = []
+    for d in c.get('runs', []):
+        ps = [(b['P'], b['S'], b['T']) for b in d['bounds']]
+        if ps:
+            lo, hi = min(p[0] for p in ps), max(p[0] for p in ps)
+            bs.append('%s/%s P≤%s' % (d['harness'], d['variant'].replace('mc-', ''), fmt(hi) if lo == hi else fmt(lo) + '…' + fmt(hi)))
+    trows.append('| %s | %d | %s | %s | %s | %.0f s | %s |' % (
+        pid, c['cells_total'], format(c['traces_validated_against_impl'], ','), format(c['states'], ','),
+        'yes' if c['exhaustive'] else 'no (%d capped)' % c['cells_capped'], e['wall_s'], '; '.join(bs) if bs else 'enumerators only'))
 tab = ['*Measured, last run of each check on the committed tree (16 cores):*', '',
        '| id | tier | cells | executions | states (choice-tree nodes) | exhaustive within bounds | wall |',
-       '|---|---|---|---|---|---|---|'] + rows
+       '|---|---|---|---|---|---|---|'] + rows + ['', '*Thorough tier, last end-to-end run of every thorough command (`tools_all.sh thorough`, results kept in `thorough_runs/`; the machine was shared with other jobs, so wall times are upper bounds):*', '',
+       '| id | cells | executions | states | exhaustive within bounds | wall | preemption bounds per explorer run |', '|---|---|---|---|---|---|---|'] + trows
 p = os.path.join(V, 'DESIGN.md')
 s = open(p).read()
 s = re.sub(r'<!-- BEGIN measured -->.*?<!-- END measured -->', '<!-- BEGIN measured -->\n' + '\n'.join(tab) + '\n<!-- END measured -->', s, flags=re.S)
